@@ -2276,6 +2276,11 @@ class Field(
                 if axis in construct_axes:
                     continue
 
+                if construct.construct_type == "dimension_coordinate":
+                    # A dimension coordinate construct spans exactly
+                    # one domain axis: its data stay 1-d
+                    continue
+
                 # Find the position of the new axis
                 c_position = position
                 for a in data_axes0:
